@@ -188,6 +188,10 @@ def subst_upvars(t, captured):
         if t[1] == 1:
             return ("cenv",)
         return ("carg", t[1] - 2)
+    if t[0] == "call":
+        # the call site belongs to the closure's body, not to the body the term is inlined into
+        site = t[3] if isinstance(t[3], tuple) else ("cl", t[3])
+        return ("call", t[1], tuple(subst_upvars(y, captured) if isinstance(y, tuple) else y for y in t[2]), site)
     out = [t[0]]
     for x in t[1:]:
         if isinstance(x, tuple) and x and isinstance(x[0], str):
